@@ -70,6 +70,9 @@ def cases(draw):
         'cut2': draw(cut()),
         'ops4': draw(api_ops(3)),
         'group': draw(st.booleans()),
+        # the peer's OPEN of a session that gets cut may offer IPv4 unicast only (a peer reconfigured in between): whatever that
+        # session carries, the final one - every family offered again - must bring the whole table
+        'narrow': [draw(st.sampled_from([False, False, False, True])), draw(st.sampled_from([False, False, True]))],
     }
 
 
@@ -150,7 +153,10 @@ def check(case: dict) -> dict:
             await r.wait_message(codec.OPEN, 1, 5.0)
             await do_cut(hn, runner, r, dict(c, kind='eof' if c['kind'] == 'hold-expiry' else c['kind']), None)
             return r, False
-        if not await nh.establish(r, sc.open_body('valid', hold=9), timeout=8.0):
+        narrow = c is not None and bool(c.get('narrow'))
+        from vlib.refwire import build as _build
+
+        if not await nh.establish(r, sc.open_body('valid', hold=9, without=[_build.cap_mp(2, 1)] if narrow else None), timeout=8.0):
             raise Inconclusive(f'{label}: establishment did not complete')
         return r, True
 
@@ -170,7 +176,8 @@ def check(case: dict) -> dict:
             await send_ops(hn, case['ops1'])
             apply(intended, case['ops1'])
             runner.policy = True
-            cuts = [case['cut1']] + ([case['cut2']] if case['second'] else [])
+            narrow = case.get('narrow') or [False, False]
+            cuts = [dict(case['cut1'], narrow=narrow[0])] + ([dict(case['cut2'], narrow=narrow[1])] if case['second'] else [])
             during = [case['ops2'], case['ops4'] if case['second'] else []]
             down_ops = [case['ops3'], []]
             partial = False
@@ -240,6 +247,8 @@ def check(case: dict) -> dict:
         classes.append('ops-while-down')
     if case['bulk']:
         classes.append('bulk-routes')
+    if any((case.get('narrow') or [False, False])[: 2 if case['second'] else 1]):
+        classes.append('a-session-negotiated-fewer-families')
     return {'nontrivial': nontrivial, 'classes': classes}
 
 
